@@ -27,6 +27,7 @@ type ModSpec struct {
 	Name string
 	Text string
 	Expr ast.Expr
+	Key  ast.Expr
 	Fld  string
 }
 
@@ -44,9 +45,11 @@ type Contract struct {
 	Loops       map[int][]Clause
 	Asserts     []Clause
 	Decreases   *Clause
+	Decreases2  *Clause // second component of a lexicographic measure
 	Src         string
 	NoVerify    bool // repo contract assumed but body not verified (listed in evidence)
 	Props       []string
+	RecGroup    string
 }
 
 type GhostDecl struct {
@@ -231,7 +234,7 @@ func (db *ContractDB) loadFile(path, pkgPath string) error {
 				return fmt.Errorf("%s: duplicate contract for %s (first at %s)", src, key, old.Src)
 			}
 			cur = &Contract{Key: key, Loops: map[int][]Clause{}, Src: src}
-			if pkgPath == "" {
+			if pkgPath == "" || word == "iface" {
 				cur.Trusted = true
 			}
 			db.ByKey[key] = cur
@@ -310,6 +313,8 @@ func parseClause(c *Contract, word, rest, src string) error {
 		c.Params = strings.Fields(rest)
 	case "props":
 		c.Props = strings.Fields(rest)
+	case "recgroup":
+		c.RecGroup = strings.TrimSpace(rest)
 	case "requires":
 		cl, err := mk("requires", rest)
 		if err != nil {
@@ -323,11 +328,19 @@ func parseClause(c *Contract, word, rest, src string) error {
 		}
 		c.Ensures = append(c.Ensures, cl)
 	case "decreases":
-		cl, err := mk("decreases", rest)
+		parts := splitTop(rest, ',')
+		cl, err := mk("decreases", parts[0])
 		if err != nil {
 			return err
 		}
 		c.Decreases = &cl
+		if len(parts) > 1 {
+			cl2, err := mk("decreases", parts[1])
+			if err != nil {
+				return err
+			}
+			c.Decreases2 = &cl2
+		}
 	case "modifies":
 		c.HasMods = true
 		for _, part := range splitTop(rest, ',') {
@@ -409,6 +422,21 @@ func parseModSpec(s string) (ModSpec, error) {
 		return ModSpec{Kind: w, Expr: e, Text: s}, nil
 	case "key":
 		return ModSpec{Kind: "key", Name: r, Text: s}, nil
+	case "mapkey":
+		// mapkey m[k]
+		i := strings.IndexByte(r, '[')
+		if i < 0 || !strings.HasSuffix(r, "]") {
+			return ModSpec{}, fmt.Errorf("bad mapkey modspec %q", s)
+		}
+		e, err := parseSpecExpr(r[:i])
+		if err != nil {
+			return ModSpec{}, err
+		}
+		k, err := parseSpecExpr(r[i+1 : len(r)-1])
+		if err != nil {
+			return ModSpec{}, err
+		}
+		return ModSpec{Kind: "mapkey", Expr: e, Key: k, Text: s}, nil
 	}
 	return ModSpec{}, fmt.Errorf("bad modifies item %q", s)
 }
